@@ -227,3 +227,11 @@ func typeArgText(e Expr) string {
 	}
 	return e.String()
 }
+
+// noteMatched: a call-site clause of the function under verification applied to at least one site
+func (x *Exec) noteMatched(cl *Clause) {
+	if x.csMatched == nil {
+		x.csMatched = map[*Clause]bool{}
+	}
+	x.csMatched[cl] = true
+}
